@@ -2,8 +2,10 @@
    extracted inductive types; no Extract Constant. *)
 From Coq Require Import ExtrOcamlBasic.
 From Coq Require Extraction.
-From I18n Require Import Lib.Outcome Model.IntExpr Model.PluralForms.
+From I18n Require Import Lib.Outcome Model.IntExpr Model.PluralForms Model.Dates.
 Extraction Language OCaml.
 Extraction "model.ml"
   IntExpr.parse_string IntExpr.pyeval IntExpr.codomain IntExpr.period
-  PluralForms.parse_plural_forms PluralForms.check_plurals_core.
+  PluralForms.parse_plural_forms PluralForms.check_plurals_core
+  Dates.fix_date_real Dates.parse_date_re_real Dates.bp_search_real Dates.strip_real Dates.check_dates_real
+  Dates.ord_real Dates.parse_date Dates.stamp_minutes Dates.hint_check.
